@@ -144,3 +144,8 @@ func verifNativeLock()   { verifNativeMu.Lock() }
 func verifNativeUnlock() { verifNativeMu.Unlock() }
 
 func verifBytesEqual(a, b []byte) bool { return bytes.Equal(a, b) }
+
+func verifOr(a, b bool) bool  { return a || b }
+func verifAnd(a, b bool) bool { return a && b }
+
+func verifPoll() { verifYield() }
